@@ -21,7 +21,12 @@ RULE = ("generated: intervals (forward / inverted / absolute) over Date, naive D
         "inside the Coq model: same dispatch entries, theorems range_mixed_zones_*), ends exactly reachable / one microsecond off, values next to 0001-01-01 and 9999-12-31; "
         "__iter__; `x in interval` for x at start/end +-1us, random x and x in other zones; every yielded x tested with `in`; single add/subtract calls with "
         "amounts up to 12*10^4; fixed streams witness-inverted / witness-limit: the witnesses of the two repaired findings (inverted intervals of every kind with every value they yield, "
-        "their ends and the neighbours of the ends tested with `in`; intervals ending within one step of 9999-12-31 / 0001-01-01).  Result = interval start/end/invert after construction + every yielded (wall, fold, utcoffset) + how the iteration ended "
+        "their ends and the neighbours of the ends tested with `in`; intervals ending within one step of 9999-12-31 / 0001-01-01); "
+        "century-feb-months / century-feb-years / century-feb-shift: month and year stepping THROUGH February of EVERY century year 100..9900 (all 99 in every run) and of the leap years "
+        "next to them (C-4, C+4): starts on days 28..31 (year stepping: 29 February) placed 1..4 steps before / after that February, ends 0..5 steps beyond it, Date / naive / UTC / fixed offsets / zones, "
+        "both backends, forward / inverted / swapped / absolute, the single add / subtract that lands on the February, `in` for the yielded values; inside the Coq model (same dispatch entries range / member / shift; "
+        "theorems month_year_step_total_partial_plain, range_month_year_stops_only_outside_calendar_partial_plain, range_century_february_witness): a leap rule wrong for one century year in one backend makes the "
+        "step raise ValueError, which range() takes for the limit of the calendar and stops silently — the independent sequence (calendar.monthrange) then has more values.  Result = interval start/end/invert after construction + every yielded (wall, fold, utcoffset) + how the iteration ended "
         "(long lists: first/last 20, length, sha256, first non-monotone index).  non-trivial = every distinct (interval, unit, step) or (interval, x) input.")
 EXHAUSTIVE = {"quick": False, "thorough": False}
 VM_SUBSET = 60
@@ -257,6 +262,102 @@ def _mixed_transition_cases(rnd, zs, big):
                 if not (0 <= Ws <= T.MAX_WALL and 0 <= We <= T.MAX_WALL):
                     continue
                 out += _variants(rnd, _range_case("mixed-zones-" + ("gap" if gap else "overlap"), 2, name, zb_, Ws, fs, We, fe, 0, unit, amount))
+    return out
+
+
+CENTURIES = list(range(100, 10000, 100))      # the 99 century years of the calendar: 24 of them leap (400, 800, ... 9600), 75 not
+CF_ZONES = ["UTC", 3600, -12600, "Europe/Paris", "America/New_York", "Asia/Tokyo", "Australia/Lord_Howe"]
+CF_YEAR_STEPS = {4: [1, 2, 4], 8: [1, 2, 4, 8], 12: [1, 2, 3, 4, 6, 12], 16: [4, 8, 16], 400: [100, 200, 400, 4]}
+
+
+def _ymd_wall(y, m, d):
+    return (_dt.date(y, m, d).toordinal() - 1) * T.US_DAY
+
+
+def _century_feb_cases(rnd, zs, big):
+    """Month / year stepping THROUGH February of every century year C = 100 .. 9900 and of the leap years next to it (C - 4, C + 4): a start on day 28..31
+    (29..31 unless the start month is itself a 28-day February) placed `back` steps before (after, for inverted intervals) February of the target year, so
+    that step `back` is clamped to the last day of that February — the 28th in 75 of the century years, the 29th in the 24 leap ones and in C -+ 4 — and the
+    end lies 0..5 steps beyond it (exactly reachable or a little off).  Year stepping starts on a 29 February.  Date, naive and aware values (UTC, fixed
+    offsets, zones), both backends, forward / inverted / swapped / absolute, plus the single add / subtract that lands on the February and `in` for every
+    yielded value.  A leap rule that is wrong for ANY century year (in either backend) makes a step raise ValueError (day 29 of a 28-day February: the range
+    then stops silently before February, values inside the interval are missing and a reachable end is not yielded) or clamps to the 28th of a 29-day
+    February (k-th value differs): the independent sequence (calendar.monthrange) has the other length / value.
+    Every century year is visited in every run (quick: 5 intervals + 2 single shifts per century year)."""
+    out = []
+    tod_choices = [0, 12 * 3600 * T.MEG, 23 * 3600 * T.MEG + 59 * 60 * T.MEG + 59 * T.MEG + 999999]
+    reps = 1 if not big else 6
+    for ci, C in enumerate(CENTURIES):
+        for rep in range(reps):
+            # (target year, unit): February of C by months and by years for a Date and for a DateTime, one of the neighbouring leap years
+            plan = [(C, 1, 0), (C, 0, 0), (C, 1, None), (C, 0, None), (rnd.choice([C - 4, C + 4]), rnd.randrange(2), None)]
+            for (Y, unit, kind) in plan:
+                if kind is None:
+                    kind = rnd.choice([1, 2, 2])
+                spec = None
+                if kind == 2:
+                    spec = rnd.choice(CF_ZONES + [rnd.choice(zs)]) if zs else rnd.choice(CF_ZONES)
+                down = rnd.random() < 0.35
+                sgn = -1 if down else 1
+                if unit == 1:
+                    amount, back = rnd.randrange(1, 13), rnd.randrange(1, 5)
+                    if rnd.random() < 0.15:
+                        amount, back = 12, 4          # start on 29 February of the leap year four years away
+                    t = Y * 12 + 1 - sgn * back * amount
+                    ys, ms = t // 12, t % 12 + 1
+                    if not 1 <= ys <= 9999:
+                        continue
+                    dim = calendar.monthrange(ys, ms)[1]
+                    ds = min(dim, rnd.choice([29, 30, 31, 31, 31, 28]))
+                else:
+                    dist = rnd.choice([4, 4, 8, 12, 16] + ([400] if Y % 400 == 0 else []))
+                    for dist in (dist, 4, 8, 12):
+                        ys = Y - sgn * dist
+                        if 1 <= ys <= 9999 and calendar.isleap(ys):
+                            break
+                    else:
+                        continue
+                    amount = rnd.choice(CF_YEAR_STEPS[dist])
+                    back = dist // amount
+                    ms, ds = 2, 29
+                Ws = _ymd_wall(ys, ms, ds) + (0 if kind == 0 else rnd.choice(tod_choices + [rnd.randrange(T.US_DAY)]))
+                fs = 0 if kind == 0 else 1
+                if kind == 2:
+                    Ws = _fix_wall(spec, Ws)
+                after = rnd.choice([0, 1, 1, 2, 3, 5])
+                e = _end_for(rnd, kind, spec, Ws, fs, unit, amount, back + after, sgn)
+                if e is None:
+                    continue
+                nm = "century-feb-" + UNITS[unit]
+                c = _range_case(nm, kind, spec, spec, Ws, fs, e[0], 0 if kind == 0 else e[1], 0, unit, amount, 60)
+                vs = _variants(rnd, c)
+                out += vs
+                r = rnd.random()
+                if r < 0.25:
+                    out.append({"stream": nm, "fn": "member", "args": list(rnd.choice(vs)["args"])})
+            # the single call that lands on the February of C (add from before it, subtract from after it), days 29..31
+            for m in (0, 1):
+                kind = rnd.choice([0, 1, 2])
+                spec = rnd.choice(CF_ZONES) if kind == 2 else None
+                unit = rnd.randrange(2)
+                sgn = -1 if m else 1
+                if unit == 1:
+                    k = rnd.choice([1, 2, 3, 5, 7, 11, 13, 48, 1200 - 11])
+                    t = C * 12 + 1 - sgn * k
+                    ys, ms = t // 12, t % 12 + 1
+                    if not 1 <= ys <= 9999:
+                        k = 1
+                        ys, ms = (C, 1) if sgn == 1 else (C, 3)
+                    ds = min(calendar.monthrange(ys, ms)[1], rnd.choice([29, 30, 31]))
+                else:
+                    k = rnd.choice([4, 4, 8, 96] + ([400] if C % 400 == 0 else []))
+                    ys, ms, ds = C - sgn * k, 2, 29
+                    if not (1 <= ys <= 9999 and calendar.isleap(ys)):
+                        k, ys = 4, C - sgn * 4
+                W = _ymd_wall(ys, ms, ds) + (0 if kind == 0 else rnd.choice(tod_choices))
+                if kind == 2:
+                    W = _fix_wall(spec, W)
+                out.append({"stream": "century-feb-shift", "fn": "shift", "args": [kind, spec, W, 0 if kind == 0 else 1, m, unit, k]})
     return out
 
 
@@ -496,6 +597,8 @@ def cases(tier, seed):
             if unit == 0:
                 k = min(k, 3000)
             out.append({"stream": "shift", "fn": "shift", "args": [kind, sa, Ws, fs, rnd.randrange(2), unit, k]})
+    # CF: month / year stepping through February of every century year (own generator: the streams above keep their inputs for a given seed)
+    out += _century_feb_cases(random.Random(seed * 1000003 + 29), zs, big)
     # W: the witnesses of repaired findings stay as ordinary cases (they must pass the oracle now)
     out += _witness_cases()
     # a FixedTimezone always stores fold 0
@@ -969,7 +1072,9 @@ LEVEL_TEXT = ("Machine-checked Coq theorems about the TRANSLATED Interval.range 
               "yields exactly the indices whose instant start +- k*n units is not beyond the end's instant, the end is yielded iff its instant is on that grid, direction and `in` are decided by instants "
               "(range_mixed_zones_stop_by_instant / _exact / _end_reached, interval_direction_mixed_zones, contains_mixed_zones); "
               "the iteration never ends with OverflowError / ValueError: when the value after the last one is outside 0001-01-01 .. 9999-12-31 the run stops normally (range_stops_at_limit, "
-              "range_prefix, range_at_limit_witness); refutation of monotonicity for day stepping over a skipped day (Kiritimati witness).")
+              "range_prefix, range_at_limit_witness), and for dates, naive values and UTC / fixed offsets stepped by years / months that is the ONLY other way a run ends: start.add(years / months) succeeds whenever the target "
+              "year is in 1..9999, whatever the clamped day (month_year_step_total_partial_plain, range_month_year_stops_only_outside_calendar_partial_plain; range_century_february_witness: 2099-10-31 .. 2100-06-30 by months "
+              "yields nine values through 2100-02-28); refutation of monotonicity for day stepping over a skipped day (Kiritimati witness).")
 DESIGN_REF = "DESIGN.md section 4 C19"
 LEVEL_NOTE = ("Trusted: Coq kernel+VM; translator subclass in tools/vlib/gens/g90_range.py; hand model Model/IntervalRange.v (ordering, add/subtract dispatch, Interval.__init__) and "
               "Model/TzConvert.v validated by correspondence; Spec/Zone.v as a model of zoneinfo; extraction cross-checked with vm_compute.")
